@@ -132,6 +132,50 @@ pub fn main(tier: Tier, replay: Option<Value>) -> i32 {
             }
         }
     }
+    // more operations that cannot be carried out: a directory as input, an output path in a directory that does not
+    // exist, and every strict prefix of a compressed file as input to decompress. Each must end with a failure
+    // status; a panic is tolerated only if it leaves no output file behind (the property's wording).
+    {
+        let d = root.join("cannot");
+        std::fs::create_dir_all(d.join("adir")).unwrap();
+        std::fs::write(d.join("in.txt"), b"hello world ".repeat(2000)).unwrap();
+        let ok = run_cli(&cli, &d, &["compress", "in.txt", "good.zst"]);
+        let good = std::fs::read(d.join("good.zst")).unwrap_or_default();
+        if ok.code != Some(0) || good.is_empty() {
+            run.machinery_error(format!("cannot set up the failure cases: compress of a small file gave {:?}", ok.code));
+        } else {
+            let mut ops: Vec<(Vec<String>, String, Option<String>)> = vec![
+                (vec!["compress".into(), "adir".into(), "adir-out.zst".into()], "compress a directory (explicit output)".into(), Some("adir-out.zst".into())),
+                (vec!["compress".into(), "adir".into()], "compress a directory (defaulted output)".into(), Some("adir.zst".into())),
+                (vec!["decompress".into(), "adir".into(), "adir.out".into()], "decompress a directory".into(), Some("adir.out".into())),
+                (vec!["compress".into(), "in.txt".into(), "nodir/out.zst".into()], "compress into a directory that does not exist".into(), Some("nodir/out.zst".into())),
+                (vec!["decompress".into(), "good.zst".into(), "nodir/out.txt".into()], "decompress into a directory that does not exist".into(), Some("nodir/out.txt".into())),
+            ];
+            for cut in 0..good.len() {
+                let name = format!("cut{cut}.zst");
+                std::fs::write(d.join(&name), &good[..cut]).unwrap();
+                ops.push((vec!["decompress".into(), name, format!("cut{cut}.out")], format!("decompress the first {cut} of {} bytes of a compressed file", good.len()), Some(format!("cut{cut}.out"))));
+            }
+            let results = crate::meter::par_map(ops.len(), crate::meter::threads(), |i| {
+                let a: Vec<&str> = ops[i].0.iter().map(|s| s.as_str()).collect();
+                run_cli(&cli, &d, &a)
+            });
+            for ((args, what, out), r) in ops.iter().cloned().zip(results) {
+                evals += 1;
+                let out_path = out.map(|o| d.join(o));
+                let exists = out_path.as_ref().map_or(false, |p| p.is_file());
+                let rp = json!({"args": args, "what": what});
+                let class = what.split(" the first").next().unwrap_or(&what).to_string();
+                if r.code == Some(0) {
+                    run.violation(Violation { identity: format!("cannot_be_carried_out_exit0:{class}"), what: format!("{what}: exit status 0"), replay: rp });
+                } else if r.panicked && exists {
+                    run.violation(Violation { identity: format!("panic_leaves_output:{class}"), what: format!("{what}: the tool panicked (exit status {:?}) and left {} ({} bytes) behind, which looks like a result; stderr: {}", r.code, out_path.as_ref().unwrap().file_name().unwrap().to_string_lossy(), std::fs::metadata(out_path.as_ref().unwrap()).map(|m| m.len()).unwrap_or(0), crate::ev::truncate(r.stderr.trim(), 200)), replay: rp });
+                } else {
+                    refused += 1;
+                }
+            }
+        }
+    }
     // the block encoder's decision automaton through the tool: every generator of C02's automaton alone and every
     // ordered pair of them as one file (so that every cross-block decision - table reuse, raw fallback after a
     // Huffman block, ... - is taken inside the process a user runs), compress at level 1 (alone: also without a
@@ -206,7 +250,7 @@ pub fn main(tier: Tier, replay: Option<Value>) -> i32 {
     run.set("successful_roundtrips", ok_roundtrips);
     run.set("operations_refused_cleanly", refused);
     run.set("exhaustive", true);
-    run.set("rule", "the built ruzstd-cli binary in fresh directories: level option {absent, 0, 1, 2, 3, 4, 5, 255, 256, 'x'} (long and short flag) x output path {explicit, defaulted} x 9/12 file contents (empty, 1 byte, text, one block -1/0/+1, incompressible 300 KB, RLE, binary with NULs); every produced file is decoded by libzstd and by the tool's decompress command with explicit and with defaulted target (run from another directory). Then every block generator of C02's decision automaton alone (with and without a level) and every ordered pair of them (level 1; thorough: also without) as one file through compress, libzstd and decompress. Implemented levels and no level: exit 0 and identical restored file. Otherwise: non-zero exit status and no panic that leaves an output file behind. non-trivial = completed round trips + cleanly refused operations");
+    run.set("rule", "the built ruzstd-cli binary in fresh directories: level option {absent, 0, 1, 2, 3, 4, 5, 255, 256, 'x'} (long and short flag) x output path {explicit, defaulted} x 9/12 file contents (empty, 1 byte, text, one block -1/0/+1, incompressible 300 KB, RLE, binary with NULs); every produced file is decoded by libzstd and by the tool's decompress command with explicit and with defaulted target (run from another directory). Also: a directory as input, an output path in a directory that does not exist, and every strict prefix of a compressed file given to decompress (failure status required; a panic only if no output is left behind). Then every block generator of C02's decision automaton alone (with and without a level) and every ordered pair of them (level 1; thorough: also without) as one file through compress, libzstd and decompress. Implemented levels and no level: exit 0 and identical restored file. Otherwise: non-zero exit status and no panic that leaves an output file behind. non-trivial = completed round trips + cleanly refused operations");
     run.sample(json!({"args": ["compress", "input.dat"], "then": ["decompress", "<dir>/input.dat.zst"], "cwd_of_decompress": "another directory"}));
     run.finish()
 }
